@@ -96,6 +96,7 @@ def gen_case(rng: random.Random, cfg: str, kind: str) -> dict:
         "cancelled_receive": rng.random() < 0.35,
         "reverse_late": rng.random() < 0.5,
         "close_pending": rng.choice([None, None, None, "r", "s", "rs"]),
+        "close_pending_how": rng.choice(["plain", "cancelled"]),
         "close_how": rng.choice(["plain", "cancelled-scope", "expired-deadline", "racing-send"]),
         "cancelled_sends": rng.choice([0, 0, 0, 0, 10, 30]),
     }  # fmt: skip
@@ -557,12 +558,35 @@ def execute(case: dict) -> dict:
                     last = blocked["send"]
 
                 closing.append(1)
-                await a.aclose()
+                if case.get("close_pending_how") == "cancelled":
+                    # the closer itself is being cancelled (`async with stream:` left by a
+                    # timeout): the stream is closed all the same
+                    with anyio.move_on_after(0):
+                        await a.aclose()
+
+                    window("closed_under_cancellation_with_operations_pending")
+                else:
+                    await a.aclose()
+
+        # ... and afterwards the stream is an ordinary closed stream
+        for what in ("send", "receive"):
+            try:
+                with anyio.fail_after(5):
+                    if what == "send":
+                        await a.send(b"more")
+                    else:
+                        await a.receive()
+
+                res["later_" + what] = "returned"
+            except BaseException as e:  # noqa: BLE001
+                res["later_" + what] = type(e).__name__
 
         window("close_with_pending_" + pend)
         want = {"send": "ClosedResourceError"} if "s" in pend else {}
         if "r" in pend:
             want["receive"] = "ClosedResourceError"
+
+        want["later_send"] = want["later_receive"] = "ClosedResourceError"
 
         if scope.cancelled_caught:
             viol.append(("pending-operation-still-blocked-15s-after-local-close",
@@ -643,9 +667,11 @@ def all_cases(tier: str, seed: int):  # noqa: ANN201
     for cfg in ("asyncio", "uvloop"):
         for kind in ("tcp", "unix"):
             for pend in ("r", "s", "rs"):
-                yield {"cfg": cfg, "kind": kind, "reader": "connected", "sizes": [100],
-                       "max_bytes": [65536], "stall": "none", "reverse": [], "eof": "aclose",
-                       "probe_closed": False, "probe_busy": False, "close_pending": pend}  # fmt: skip
+                for how in ("plain", "cancelled"):
+                    yield {"cfg": cfg, "kind": kind, "reader": "connected", "sizes": [100],
+                           "max_bytes": [65536], "stall": "none", "reverse": [], "eof": "aclose",
+                           "probe_closed": False, "probe_busy": False, "close_pending": pend,
+                           "close_pending_how": how}  # fmt: skip
 
     # bulk transfers over un-shrunk kernel buffers to a late reader: the loop hands over
     # large chunks, on uvloop several per wake-up; integrity / order / chunk sizes only
